@@ -30,31 +30,75 @@ def model_int(model: Any, var: Any) -> int:
     return v.as_long()
 
 
+def _cvc5_decide(text: str, timeout_s: float) -> str:
+    import cvc5
+    slv = cvc5.Solver()
+    slv.setOption("tlimit-per", str(int(timeout_s * 1000)))
+    slv.setOption("nl-cov", "true")
+    slv.setLogic("ALL")
+    parser = cvc5.InputParser(slv)
+    parser.setStringInput(cvc5.InputLanguage.SMT_LIB_2_6, text, "q")
+    sm = parser.getSymbolManager()
+    res = "unknown"
+    while True:
+        cmd = parser.nextCommand()
+        if cmd.isNull():
+            break
+        out = str(cmd.invoke(slv, sm)).strip()
+        if out in ("sat", "unsat", "unknown"):
+            res = out
+        elif out.startswith("(error"):
+            return "error"
+    return res
+
+
 def cvc5_check(constraints: Sequence[Any], timeout_s: float = 10.0) -> Tuple[str, float]:
-    """Second opinion: the same query (z3's SMT-LIB2 export) decided by cvc5 1.4 (wheel). ('unsat'|'sat'|'unknown'|'error', s)"""
+    """Second opinion: the same query (z3's SMT-LIB2 export) decided by cvc5 1.4 (wheel). ('unsat'|'sat'|'unknown'|'error', s)
+
+    cvc5 runs in a forked child that is killed after the time limit: its own `tlimit-per` is only polled at resource check
+    points, and a coverings step on large rationals has been seen to run for half an hour inside one GMP multiplication."""
+    import os
+    import select
+    import signal
     t0 = time.time()
     try:
-        import cvc5
         s = z3.Solver()
         s.add(*constraints)
         text = s.to_smt2()
-        slv = cvc5.Solver()
-        slv.setOption("tlimit-per", str(int(timeout_s * 1000)))
-        slv.setOption("nl-cov", "true")
-        slv.setLogic("ALL")
-        parser = cvc5.InputParser(slv)
-        parser.setStringInput(cvc5.InputLanguage.SMT_LIB_2_6, text, "q")
-        sm = parser.getSymbolManager()
-        res = "unknown"
-        while True:
-            cmd = parser.nextCommand()
-            if cmd.isNull():
-                break
-            out = str(cmd.invoke(slv, sm)).strip()
-            if out in ("sat", "unsat", "unknown"):
-                res = out
-            elif out.startswith("(error"):
-                return "error", time.time() - t0
-        return res, time.time() - t0
     except Exception:
         return "error", time.time() - t0
+    try:
+        r, w = os.pipe()
+        pid = os.fork()
+    except OSError:
+        return "error", time.time() - t0
+    if pid == 0:  # child: nothing but cvc5 and the text
+        try:
+            os.close(r)
+            try:
+                res = _cvc5_decide(text, timeout_s)
+            except Exception:
+                res = "error"
+            os.write(w, res.encode())
+        finally:
+            os._exit(0)
+    os.close(w)
+    res = "unknown"
+    try:
+        ready, _, _ = select.select([r], [], [], timeout_s + 3.0)
+        if ready:
+            data = os.read(r, 64).decode().strip()
+            if data in ("sat", "unsat", "unknown", "error"):
+                res = data
+        else:
+            try:
+                os.kill(pid, signal.SIGKILL)
+            except OSError:
+                pass
+    finally:
+        os.close(r)
+        try:
+            os.waitpid(pid, 0)
+        except OSError:
+            pass
+    return res, time.time() - t0
